@@ -81,7 +81,7 @@ def c_int(v):
     return str(n)
 
 
-def render_c(act, td):
+def render_c(act, td, cpacked=()):
     """one action as C source (definitions for functions and variables; integer constants are
     macros with the declared value, whatever the form of the cdef declaration)"""
     a = act["a"]
@@ -89,6 +89,8 @@ def render_c(act, td):
         return function_def(act, td)
     if a == "DeclGlobal":
         return "%s;" % mg.decl(act["t"], act["n"])
+    if a == "DeclStruct" and (act["kind"], act["tag"]) in cpacked:
+        return "%s %s { %s } __attribute__((packed));" % (act["kind"], act["tag"], mg.fields_text(act["fs"]))
     if a == "DeclConst":
         return "#define %s %s" % (act["n"], c_int(act["val"]))
     if a == "DeclEnum":
@@ -106,7 +108,7 @@ def track_td(beh, td=None):
     return td
 
 
-def render_csource(beh, prior=(), prelude=True):
+def render_csource(beh, prior=(), prelude=True, cpacked=()):
     """C source for set_source(): the type declarations of `prior` (behaviour of the included
     FFIs: types only) followed by everything of `beh`."""
     out = [PRELUDE] if prelude else []
@@ -117,7 +119,7 @@ def render_csource(beh, prior=(), prelude=True):
         out.append(render_c(act, td))
         td = track_td([act], td)
     for act in beh:
-        out.append(render_c(act, td))
+        out.append(render_c(act, td, cpacked))
         td = track_td([act], td)
     return "\n".join(out) + "\n"
 
@@ -140,7 +142,7 @@ def import_from(outdir, modname):
 
 # --------------------------------------------------------------------------- C12: cdef vs C world
 
-MUTATIONS = ("MutateField", "MutateConst", "MutateEnumerator", "AddDots")
+MUTATIONS = ("MutateField", "MutateConst", "MutateEnumerator", "AddDots", "MutatePack")
 
 
 def split_mutations(beh):
@@ -174,9 +176,31 @@ def apply_mutations(decls, muts):
             for d in out:
                 if d["a"] == "DeclEnum" and d["tag"] == m["tag"]:
                     d["vals"][m["i"] - 1] = m["val"]
+        elif a == "MutatePack":
+            key = (m["kind"], m["tag"])
+            if m["where"] in ("cdef", "both"):
+                flex.add(("pkc", key))
+            if m["where"] in ("c", "both"):
+                flex.add(("pkw", key))
         elif a == "AddDots":
             flex.add((m["what"], tuple(m["item"]) if isinstance(m["item"], list) else m["item"]))
     return out, flex
+
+
+def cdef_chunks(cdef_decls, flex):
+    """[(cdef text, packed)]: a struct packed in the cdef gets a ffi.cdef(..., packed=True) of its own"""
+    chunks, cur = [], []
+    for d in cdef_decls:
+        if d["a"] == "DeclStruct" and ("pkc", (d["kind"], d["tag"])) in flex:
+            if cur:
+                chunks.append((render_cdef_api(cur, flex), False))
+                cur = []
+            chunks.append((render_cdef_api([d], flex), True))
+        else:
+            cur.append(d)
+    if cur:
+        chunks.append((render_cdef_api(cur, flex), False))
+    return chunks
 
 
 def render_cdef_api(cdef_decls, flex):
